@@ -608,3 +608,80 @@ Proof.
   intros r0 H43. destruct (Rn 0 H43) as [(_ & Hx)|(cs0 & Ec)]; [discriminate|].
   right. exists (cs1 ++ cs0). rewrite Ec, app_assoc. reflexivity.
 Qed.
+
+Lemma pf_pre_good sy r p3 r5 p5 : family sy -> l_inf (ps_lex p3) = false -> ps_pre p3 = [] ->
+  pf_pre sy r p3 = Ok (r5, p5) ->
+  l_inf (ps_lex p5) = false /\ ps_num p5 = ps_num p3 /\ ps_build p5 = ps_build p3 /\
+  (l_err (ps_lex p5) = false -> l_err (ps_lex p3) = false /\
+     Forall (fun x => elemb sy x = true) (ps_pre p5) /\
+     exists cs, adv (ps_lex p3) (ps_lex p5) cs /\ rshape r cs r5).
+Proof.
+  intros F Hi Hp. unfold pf_pre.
+  destruct (r =? 45).
+  { destruct (sys_eqb sy SGo && Nat.ltb (length (ps_num p3)) 3); [discriminate|].
+    destruct (parse_metadata sy (mark_pre p3) true) as [r' p'] eqn:Em. intros H; inversion H; subst r5 p5. clear H.
+    destruct (parse_metadata_good sy (mark_pre p3) true r' p' Hi Em) as (I1 & N1 & _ & B1 & G).
+    cbn [mark_pre ps_lex ps_num ps_pre ps_build] in N1, B1, G.
+    split; [exact I1|]. split; [exact N1|]. split; [exact B1|]. intros He.
+    destruct (G He) as (E0 & e & es & cs & P & Fa & A & R & _). split; [exact E0|].
+    rewrite P, Hp. cbn [app]. split; [exact Fa|]. exists cs. split; [exact A | apply rshape_weaken; exact R]. }
+  destruct ((r =? 42) && sys_eqb sy SNuGet).
+  { destruct (lex_next (ps_lex p3)) as [r' l4] eqn:En.
+    destruct (lex_next_good _ _ _ Hi En) as (I4 & G4).
+    destruct (r' =? r_eof) eqn:Ee.
+    - intros H; inversion H; subst r5 p5. clear H. cbn [with_lex ps_lex ps_num ps_pre ps_build].
+      split; [exact I4|]. split; [reflexivity|]. split; [reflexivity|]. intros He.
+      destruct (rshape_next _ _ _ Hi En He) as (cs & A & R & _). destruct (G4 He) as (E0 & _).
+      split; [exact E0|]. rewrite Hp. split; [constructor|]. exists cs. split; [exact A | apply R].
+    - destruct (parse_metadata sy (mark_pre (with_lex p3 l4)) true) as [r'' p6] eqn:Em.
+      destruct (parse_metadata_good sy (mark_pre (with_lex p3 l4)) true r'' p6 I4 Em) as (I6 & N6 & _ & B6 & G6).
+      cbn [mark_pre with_lex ps_lex ps_num ps_pre ps_build] in N6, B6, G6.
+      destruct (last_opt (ps_pre p6)) as [le|]; [|discriminate].
+      destruct (last_opt le) as [c|]; [|discriminate].
+      destruct (N.eqb c 42); [|discriminate].
+      intros H; inversion H; subst r5 p5. clear H.
+      split; [exact I6|]. split; [exact N6|]. split; [exact B6|]. intros He.
+      destruct (G6 He) as (E4 & e & es & cs & P & Fa & A & R & _).
+      destruct (rshape_next _ _ _ Hi En E4) as (csn & An & Rn & _). destruct (G4 E4) as (E0 & _).
+      split; [exact E0|]. rewrite P, Hp. cbn [app]. split; [exact Fa|].
+      exists (csn ++ cs). split; [exact (adv_trans _ _ _ _ _ An A)|].
+      apply rshape_app with (r1 := r'); [exact Rn | apply rshape_weaken; exact R]. }
+  rewrite (family_not_gems sy F). cbn [andb].
+  intros H; inversion H; subst r5 p5. clear H.
+  split; [exact Hi|]. split; [reflexivity|]. split; [reflexivity|]. intros He. split; [exact He|].
+  rewrite Hp. split; [constructor|]. exists []. split; [apply adv_nil; reflexivity | apply rshape_same].
+Qed.
+
+Lemma pf_build_good sy str r p5 r7 p7 : family sy -> l_inf (ps_lex p5) = false -> ps_build p5 = [] ->
+  pf_build sy str r p5 = Ok (r7, p7) ->
+  l_inf (ps_lex p7) = false /\ ps_num p7 = ps_num p5 /\
+  (l_err (ps_lex p7) = false -> l_err (ps_lex p5) = false /\ ps_pre p7 = ps_pre p5 /\
+     (PI str r (ps_lex p5) -> r7 = r_eof ->
+      exists bl, ps_build p7 = r_build bl /\ Forall (fun x => elemb sy x = true) bl)).
+Proof.
+  intros F Hi Hb. unfold pf_build. rewrite (family_not_gems sy F). cbn [negb]. rewrite andb_true_r.
+  destruct (r =? 43) eqn:E43.
+  - apply Z.eqb_eq in E43.
+    destruct (sys_eqb sy SGo && Nat.ltb (length (ps_num p5)) 3); [discriminate|].
+    destruct (parse_metadata sy p5 false) as [r' p6] eqn:Em.
+    destruct (parse_metadata_good sy p5 false r' p6 Hi Em) as (I6 & N6 & _ & _ & G6).
+    intros H; inversion H; subst r7 p7. clear H. cbn [ps_lex ps_num ps_pre ps_build].
+    split; [exact I6|]. split; [exact N6|].
+    intros He. destruct (G6 He) as (E0 & e & es & cs & P & Fa & A & R & J). split; [exact E0|].
+    split; [rewrite P, app_nil_r; reflexivity|].
+    intros (a & S1 & S2 & S3) Hr. destruct (S3 E43) as (a0 & Ea).
+    exists (e :: es). split; [|exact Fa].
+    rewrite (J Hr) in A. destruct A as [A1 A2].
+    assert (Es : str = a0 ++ (43%N :: joind e es) ++ l_rest (ps_lex p6)).
+    { rewrite S1, Ea, A1, <- !app_assoc. reflexivity. }
+    assert (Ep : (l_pos (ps_lex p5) - 1)%nat = length a0).
+    { rewrite S2, Ea, app_length. cbn [length]. lia. }
+    rewrite Ep, A2, S2, Ea, app_length. cbn [length].
+    replace (length a0 + 1 + length (joind e es) - length a0)%nat with (length (43%N :: joind e es)) by (cbn [length]; lia).
+    rewrite Es, skipn_app, skipn_all, Nat.sub_diag. cbn [skipn app].
+    change (43%N :: joind e es ++ l_rest (ps_lex p6)) with ((43%N :: joind e es) ++ l_rest (ps_lex p6)).
+    rewrite firstn_app, firstn_all, Nat.sub_diag. cbn [firstn]. rewrite app_nil_r. reflexivity.
+  - intros H; inversion H; subst r7 p7. clear H.
+    split; [exact Hi|]. split; [reflexivity|]. intros He. split; [exact He|]. split; [reflexivity|].
+    intros _ _. exists []. split; [exact Hb | constructor].
+Qed.
